@@ -43,6 +43,12 @@ def check_core_family(prop, tier):
                     seen.add(key)
                     cases.append(c)
                     sim_cases += 1
+    if prop == "C03" and tier == "thorough":
+        # the thorough model (two successive edits) has ~30x the cases of the quick one; every single-edit case is
+        # replayed, of the two-edit cases every 12th (the replay expands each to thousands of concrete tokens)
+        one = [c for c in cases if len(c["edits"]) <= 1]
+        two = [c for c in cases if len(c["edits"]) > 1]
+        cases = one + two[::12]
     cases_path = os.path.join(verif.WORK, "core_cases_%s_%s.ndjson" % (prop, tier))
     verif.write_ndjson(cases_path, cases)
     out = os.path.join(verif.WORK, "replay_%s_%s.json" % (prop, tier))
@@ -122,9 +128,9 @@ def check_core_family(prop, tier):
         missing = [k for k in needed if kinds.get(k, 0) == 0]
         if missing or s["tolerated_accepted"] + s["tolerated_rejected"] == 0:
             raise ToolError("vacuous C03 run: edit kinds without any concrete mutant: %s; tolerated cases: %d" % (missing, s["tolerated_accepted"]))
-    if prop in ("C01", "C02") and s["expected_ok"] == 0:
+    if s["nviol"] == 0 and prop in ("C01", "C02") and s["expected_ok"] == 0:
         raise ToolError("vacuous %s run: no accepting presentation was replayed" % prop)
-    if prop in ("C04", "C05", "C06", "C07") and s["expected_reject"] == 0:
+    if s["nviol"] == 0 and prop in ("C04", "C05", "C06", "C07") and s["expected_reject"] == 0:
         raise ToolError("vacuous %s run: no rejecting presentation was replayed" % prop)
     fresh = verif.report(prop, s["violations"] + extra_viol, tier)
     if s["nviol"] > len(s["violations"]) and fresh == 0 and s["nviol"] > 0:
@@ -325,7 +331,7 @@ def builder_pipeline(prop, tier, conf, purpose=None):
             smp["ops"] = smp["ops"][:12] + ["... %d more calls" % (len(smp["ops"]) - 12)]
         if "counts" in smp:
             smp["counts"] = smp["counts"][:16] + ["..."]
-    if hist.get('"res":"ok"', 0) == 0 or (fam in ("c13", "c17") and hist.get('"res":"dup"', 0) == 0):
+    if not bad and (hist.get('"res":"ok"', 0) == 0 or (fam in ("c13", "c17") and hist.get('"res":"dup"', 0) == 0)):
         raise ToolError("vacuous builder run (%s): observed outcomes %s" % (fam, hist))
     return dict(states=res["distinct"], transitions=res["states"], nbeh=len(behs), n=n, bad=bad, violations=violations,
                 other=other, nbuilds=nbuilds, samples=sample, twall=tres["wall"], args=args, outcomes=hist)
@@ -523,7 +529,8 @@ def parser_pipeline(prop, tier, fam, whys, sweep=0, cfgname=None, need=('"res":"
                     smp["ops"] = smp["ops"][:8] + ["... %d more calls" % (len(smp["ops"]) - 8)]
                     smp["toks"] = smp["toks"][:8] + ["..."]
                 sample.append(smp)
-    if any(hist.get(k, 0) == 0 for k in need):
+    # (a run that found violations is not vacuous: the missing outcome class may be the defect itself)
+    if not bad and any(hist.get(k, 0) == 0 for k in need):
         raise ToolError("vacuous parser run (%s): observed outcomes %s" % (fam, hist))
     if hist.get('"res":"late"', 0) > n // 2:
         raise ToolError("the machine was too slow for the time-passing histories: %d late parses" % hist['"res":"late"'])
